@@ -7,7 +7,7 @@ META = {
     "C01": {
         "text": "Random (up to 1.6 M cases) and, in the thorough tier, exhaustive (r in 0..6 x all subsets of {-2..8}) comparison of every "
                 "ordinal helper and of the real controller's pod creations on an empty simulated cluster against an independent greedy "
-                "reference model. Exploration is the right level: the input space is small-alphabet and the oracle is exact.",
+                "reference model and the harness' own strict reading of the annotation value. Exploration is the right level: the input space is small-alphabet and the oracle is exact.",
         "design_ref": "DESIGN.md section 3, C01",
         "note": "Holds for the generated annotations (grammar incl. malformed strings and random bytes up to 12 bytes, r <= 12); the "
                 "controller part trusts the simulated API server (DESIGN section 2.3).",
@@ -71,7 +71,8 @@ META = {
     },
     "C10": {
         "text": "Every write of every reconcile over populations that cross all owner / label / name / terminating combinations (pods and revisions, incl. a "
-                "second set with an overlapping selector and a stale cached set) is classified against the snapshot; cache objects are compared with "
+                "second set with an overlapping selector and a same-named set in another namespace - both reconciled by the same controller -, a stale cached set, "
+                "and a set re-created under its name with another selector) is classified against the snapshot; cache objects are compared with "
                 "deep copies taken before the reconcile. Found and repaired the missing owner filter on revisions.",
         "design_ref": "DESIGN.md section 3, C10",
         "note": "See assumptions in the evidence file: marker revisions, non-canonical pod names and identical-data name collisions are not judged.",
